@@ -27,6 +27,7 @@ REPO = os.environ.get('PYGAM_REPO', '/repo')
 HERE = os.path.dirname(os.path.dirname(os.path.abspath(__file__)))
 OUT = os.path.join(HERE, 'lean', 'PyGam', 'Gen', 'Tables.lean')
 OUT_FORMULAS = os.path.join(HERE, 'lean', 'PyGam', 'Gen', 'Formulas.lean')
+OUT_DECISIONS = os.path.join(HERE, 'lean', 'PyGam', 'Gen', 'Decisions.lean')
 
 
 def parse(name):
@@ -383,18 +384,26 @@ class FormulaSpec(object):
     locate  : (file, class or None, function, inner function or None)
     pre     : Lean binders placed before the Python parameters: list of (name, Lean type)
     params  : roles of the Python parameters after `self`, by position: 'S' 'V' 'B' 'X' (ignored) 'D' (distribution object)
+              'Str' (string) 'OS' (string or None)
     attrs   : canonical path -> (type tag, Lean binder name)        e.g. 'dist.levels' -> ('S', 'levels')
     callees : canonical path -> dict(kind='fn', lean=…, sig=[…], use=[…], defaults={…}, vec=bool, ret='S')
                               | dict(kind='value', t='V', lean=…)     (the whole call is a parameter)
     self_param : True when the first Python parameter is `self`
     """
 
-    def __init__(self, name, ctx, locate, pre, params, attrs=None, callees=None, self_param=True, what=None):
+    def __init__(self, name, ctx, locate, pre, params, attrs=None, callees=None, self_param=True, what=None,
+                 scalar='α', raises=False, fragment=None, frag_vars=None, frag_return=None):
         self.name, self.ctx, self.locate, self.pre, self.params = name, ctx, locate, pre, params
         self.attrs = attrs or {}
         self.callees = callees or {}
         self.self_param = self_param
         self.what = what
+        # decision logic (Gen/Decisions.lean)
+        self.scalar = scalar            # Lean type of numbers: 'α' or 'Nat'
+        self.raises = raises            # True: `raise X(…)` is a result (`Except String _`), not a skipped guard
+        self.fragment = fragment        # function: FunctionDef -> list of statements (a part of the body), or None
+        self.frag_vars = frag_vars or {}    # local names that are inputs of the fragment: name -> (role, Lean binder)
+        self.frag_return = frag_return  # the local whose value after the fragment is the result
 
 
 class FormulaTranslator(object):
@@ -438,23 +447,35 @@ class FormulaTranslator(object):
             while ln in taken:                              # Lean keyword / clash with a binder of the spec
                 ln = ln + '_'
             taken.add(ln)
-            if role == 'S':
-                self.binders.append((ln, 'α'))
-                self.env0[nm] = Val('S', ('var', ln))
-            elif role == 'V':
-                self.binders.append((ln, 'Nat → α'))
-                self.env0[nm] = Val('V', ('idx', ln))
-            elif role == 'B':
-                self.binders.append((ln, 'Bool'))
-                self.env0[nm] = Val('B', ('bvar', ln))
-            else:
-                raise Unsupported('bad role %r' % role)
+            self.bind(nm, role, ln)
+        for nm, (role, ln) in sorted(spec.frag_vars.items()):
+            self.bind(nm, role, ln)
         # names assigned the constant None somewhere are Option-valued
         for n in ast.walk(fn):
             if isinstance(n, ast.Assign) and isinstance(n.value, ast.Constant) and n.value.value is None:
                 for t in n.targets:
                     if isinstance(t, ast.Name):
                         self.optional_vars.add(t.id)
+
+    def bind(self, nm, role, ln):
+        sc = self.spec.scalar
+        if role == 'S':
+            self.binders.append((ln, sc))
+            self.env0[nm] = Val('S', ('var', ln))
+        elif role == 'V':
+            self.binders.append((ln, 'Nat → ' + sc))
+            self.env0[nm] = Val('V', ('idx', ln))
+        elif role == 'B':
+            self.binders.append((ln, 'Bool'))
+            self.env0[nm] = Val('B', ('bvar', ln))
+        elif role == 'Str':
+            self.binders.append((ln, 'String'))
+            self.env0[nm] = Val('Str', ('svar', ln))
+        elif role == 'OS':
+            self.binders.append((ln, 'Option String'))
+            self.env0[nm] = Val('OS', ('osvar', ln))
+        else:
+            raise Unsupported('bad role %r' % role)
 
     # -- canonical dotted path of an expression --------------------------------------------------------------
     def path(self, node, env):
@@ -532,7 +553,11 @@ class FormulaTranslator(object):
             if isinstance(v, bool):
                 return Val('B', ('btrue',) if v else ('bfalse',))
             if isinstance(v, (int, float)):
+                if spec.scalar == 'Nat' and not (isinstance(v, int) and v >= 0):
+                    raise Unsupported('literal `%s` (line %d) is not a natural number' % (self.src(node), node.lineno))
                 return Val('S', _lit(v))
+            if isinstance(v, str):
+                return Val('Str', ('strlit', v))
             raise Unsupported('literal `%s` (line %d)' % (self.src(node), node.lineno))
         if isinstance(node, ast.Name):
             if node.id in env:
@@ -545,6 +570,8 @@ class FormulaTranslator(object):
             return Val('T', [self.expr(e, env) for e in node.elts])
         if isinstance(node, ast.UnaryOp):
             if isinstance(node.op, ast.USub):
+                if spec.scalar == 'Nat':
+                    raise Unsupported('`%s` (line %d): negation of a natural number' % (self.src(node), node.lineno))
                 v = self.as_number(self.expr(node.operand, env), node.operand)
                 return Val(v.t, ('neg', v.e))
             if isinstance(node.op, ast.UAdd):
@@ -564,13 +591,26 @@ class FormulaTranslator(object):
             ops = {ast.Add: 'add', ast.Sub: 'sub', ast.Mult: 'mul', ast.Div: 'div'}
             for k, nm in ops.items():
                 if isinstance(node.op, k):
+                    if spec.scalar == 'Nat' and nm == 'div':
+                        raise Unsupported('`%s` (line %d): true division of natural numbers' % (self.src(node), node.lineno))
                     l = self.as_number(self.expr(node.left, env), node.left)
                     r = self.as_number(self.expr(node.right, env), node.right)
                     return Val('V' if 'V' in (l.t, r.t) else 'S', (nm, l.e, r.e))
             raise Unsupported('operator in `%s` (line %d)' % (self.src(node), node.lineno))
+        if isinstance(node, ast.BoolOp):
+            vs = [self.expr(x, env) for x in node.values]
+            if any(v.t != 'B' for v in vs):
+                raise Unsupported('`%s` (line %d): and / or of non-Boolean operands' % (self.src(node), node.lineno))
+            out = vs[0].e
+            for v in vs[1:]:
+                out = ('and' if isinstance(node.op, ast.And) else 'or', out, v.e)
+            return Val('B', out)
         if isinstance(node, ast.Compare):
             if len(node.ops) != 1:
                 raise Unsupported('chained comparison `%s` (line %d)' % (self.src(node), node.lineno))
+            op = node.ops[0]
+            if isinstance(op, (ast.Eq, ast.NotEq, ast.In, ast.NotIn, ast.Is, ast.IsNot)):
+                return self.compare_symbolic(node, env)
             l = self.as_number(self.expr(node.left, env), node.left)
             r = self.as_number(self.expr(node.comparators[0], env), node.comparators[0])
             t = 'VB' if 'V' in (l.t, r.t) else 'B'
@@ -592,9 +632,15 @@ class FormulaTranslator(object):
                 if v.t not in ('V', 'VB'):
                     raise Unsupported('`%s` (line %d): shape of a non-vector' % (self.src(node), node.lineno))
                 return Val('S', ('natTo',))
+            if isinstance(node, ast.Subscript) and self.path(node.value, env) in ('np.r_', 'numpy.r_') and isinstance(node.slice, ast.Tuple):
+                return Val('T', [self.as_number(self.expr(x, env), x) for x in node.slice.elts])      # np.r_[a, b] is the pair
             p = self.path(node, env)
             if p is not None and p in spec.attrs and (spec.attrs[p][0] == 'D' or spec.attrs[p][1] in [b for b, _ in spec.pre]):
                 t, ln = spec.attrs[p]
+                if t == 'Str':
+                    return Val('Str', ('svar', ln))
+                if t == 'OS':
+                    return Val('OS', ('osvar', ln))
                 if t == 'S':
                     return Val('S', ('var', ln))
                 if t == 'B':
@@ -607,6 +653,70 @@ class FormulaTranslator(object):
         if isinstance(node, ast.Call):
             return self.call(node, env)
         raise Unsupported('expression `%s` (line %d)' % (self.src(node), getattr(node, 'lineno', 0)))
+
+    def compare_symbolic(self, node, env):
+        """== != in not-in is is-not on strings / optional strings"""
+        op, rhs = node.ops[0], node.comparators[0]
+        l = self.expr(node.left, env)
+        neg = isinstance(op, (ast.NotEq, ast.NotIn, ast.IsNot))
+        if isinstance(op, (ast.Is, ast.IsNot)):
+            if not (isinstance(rhs, ast.Constant) and rhs.value is None):
+                raise Unsupported('`%s` (line %d): `is` with something else than None' % (self.src(node), node.lineno))
+            if l.t in ('Str', 'S', 'B'):
+                c = ('cfalse',)             # a string / number / Boolean is not None
+            elif l.t in ('OS', 'O'):
+                c = ('isnone', l.e)
+            else:
+                raise Unsupported('`%s` (line %d): None test of a %s' % (self.src(node), node.lineno, l.t))
+        elif isinstance(op, (ast.In, ast.NotIn)):
+            if not (isinstance(rhs, (ast.List, ast.Tuple)) and all(isinstance(x, ast.Constant) and isinstance(x.value, str) for x in rhs.elts)):
+                raise Unsupported('`%s` (line %d): membership in something else than a literal list of strings' % (self.src(node), node.lineno))
+            if l.t != 'Str':
+                raise Unsupported('`%s` (line %d): membership test of a %s' % (self.src(node), node.lineno, l.t))
+            c = ('smem', l.e, [x.value for x in rhs.elts])
+        else:
+            r = self.expr(rhs, env)
+            if l.t == 'Str' and r.t == 'Str':
+                c = ('seq', l.e, r.e)
+            elif l.t == 'OS' and r.t == 'Str':
+                c = ('seq', l.e, ('osome', r.e))
+            elif l.t == 'Str' and r.t == 'OS':
+                c = ('seq', ('osome', l.e), r.e)
+            elif l.t == 'OS' and r.t == 'OS':
+                c = ('seq', l.e, r.e)
+            else:
+                raise Unsupported('`%s` (line %d): equality of %s and %s' % (self.src(node), node.lineno, l.t, r.t))
+        if neg:
+            c = ('not', c)
+        return Val('B', c)
+
+    def fold(self, c):
+        """truth value of a condition on literals, None when it depends on a parameter"""
+        k = c[0]
+        if k == 'ctrue':
+            return True
+        if k == 'cfalse':
+            return False
+        if k == 'btrue':
+            return True
+        if k == 'bfalse':
+            return False
+        if k == 'not':
+            f = self.fold(c[1])
+            return None if f is None else (not f)
+        if k in ('and', 'or'):
+            a, b = self.fold(c[1]), self.fold(c[2])
+            if k == 'and':
+                return False if (a is False or b is False) else (True if (a and b) else None)
+            return True if (a is True or b is True) else (False if (a is False and b is False) else None)
+        lit = lambda e: e[0] == 'strlit' or e[0] == 'none' or (e[0] == 'osome' and e[1][0] == 'strlit')
+        if k == 'seq' and lit(c[1]) and lit(c[2]):
+            return c[1] == c[2]
+        if k == 'isnone' and lit(c[1]):
+            return c[1][0] == 'none'
+        if k == 'smem' and c[1][0] == 'strlit':
+            return c[1][1] in c[2]
+        return None
 
     def call(self, node, env):
         spec = self.spec
@@ -639,6 +749,24 @@ class FormulaTranslator(object):
                 raise Unsupported('`%s` (line %d): expected one argument' % (self.src(node), node.lineno))
             v = self.as_number(self.expr(nargs[0], env), nargs[0])
             return Val(v.t, ('call', self.math(p.split('.')[1]), [v.e]))
+        if p in ('np.abs', 'numpy.abs', 'abs'):
+            if len(nargs) != 1 or kws:
+                raise Unsupported('`%s` (line %d): expected one argument' % (self.src(node), node.lineno))
+            if spec.scalar == 'Nat':
+                raise Unsupported('`%s` (line %d): abs of a natural number' % (self.src(node), node.lineno))
+            v = self.as_number(self.expr(nargs[0], env), nargs[0])
+            return Val(v.t, ('ite', ('lt', v.e, _num(0)), ('neg', v.e), v.e))
+        if p in ('np.prod', 'numpy.prod'):
+            # np.prod([t.attr for t in <list the spec knows>])  ↦  prodList <list parameter>
+            a = nargs[0] if len(nargs) == 1 and not kws else None
+            if isinstance(a, ast.ListComp) and len(a.generators) == 1 and not a.generators[0].ifs and not a.generators[0].is_async \
+                    and isinstance(a.generators[0].target, ast.Name) and isinstance(a.elt, ast.Attribute) \
+                    and isinstance(a.elt.value, ast.Name) and a.elt.value.id == a.generators[0].target.id:
+                ip = self.path(a.generators[0].iter, env)
+                key = None if ip is None else '%s[*].%s' % (ip, a.elt.attr)
+                if key in spec.attrs and spec.attrs[key][0] == 'LS' and spec.attrs[key][1] in [b for b, _ in spec.pre]:
+                    return Val('S', ('call', 'prodList', [('var', spec.attrs[key][1])]))
+            raise Unsupported('`%s` (line %d): product of something else than the known list' % (self.src(node), node.lineno))
         if p in ('np.ones_like', 'numpy.ones_like'):
             if len(nargs) != 1 or kws:
                 raise Unsupported('`%s` (line %d): expected one argument' % (self.src(node), node.lineno))
@@ -684,6 +812,10 @@ class FormulaTranslator(object):
     def spec_call(self, p, cs, node, env):
         if cs['kind'] == 'value':
             t = cs['t']
+            if cs.get('args_ignored_only'):
+                # every argument must be a parameter the translation ignores (e.g. np.min(data) ↦ dmin)
+                if node.keywords or len(node.args) != 1 or self.expr(node.args[0], env).t != 'X':
+                    raise Unsupported('`%s` (line %d): unexpected arguments' % (self.src(node), node.lineno))
             return Val(t, ('idx', cs['lean']) if t == 'V' else ('var', cs['lean']))
         sig = cs['sig']
         bound = {}
@@ -763,6 +895,11 @@ class FormulaTranslator(object):
                 if s.value is None:
                     raise Unsupported('bare return (line %d)' % s.lineno)
                 return self.expr(s.value, env)
+            if isinstance(s, ast.Raise) and self.spec.raises:
+                exc = s.exc.func if isinstance(s.exc, ast.Call) else s.exc
+                if not isinstance(exc, ast.Name):
+                    raise Unsupported('`%s` (line %d): exception class not a plain name' % (self.src(s), s.lineno))
+                return Val('ERR', exc.id)
             if isinstance(s, ast.Assign):
                 if len(s.targets) != 1:
                     raise Unsupported('chained assignment (line %d)' % s.lineno)
@@ -771,6 +908,12 @@ class FormulaTranslator(object):
                     if t.id in self.roots:
                         raise Unsupported('assignment to `%s` (line %d)' % (t.id, s.lineno))
                     v = self.expr(s.value, env)
+                    old = env.get(t.id)
+                    if old is not None and old.t == 'OS':       # a string-or-None variable stays one
+                        if v.t == 'Str':
+                            v = Val('OS', ('osome', v.e))
+                        elif v.t == 'O' and v.e == ('none',):
+                            v = Val('OS', ('none',))
                     if t.id in self.optional_vars and v.t == 'S':
                         v = Val('O', ('some', v.e))
                     env[t.id] = v
@@ -794,7 +937,7 @@ class FormulaTranslator(object):
                 continue
             if isinstance(s, ast.If):
                 # guard:  if …: raise …
-                if not s.orelse and len(s.body) == 1 and isinstance(s.body[0], ast.Raise):
+                if not self.spec.raises and not s.orelse and len(s.body) == 1 and isinstance(s.body[0], ast.Raise):
                     self.notes.append('guard `if %s: raise …` (line %d) not translated' % (self.src(s.test), s.lineno))
                     continue
                 # defaulting:  if p is None: p = …
@@ -804,24 +947,75 @@ class FormulaTranslator(object):
                         and len(s.body) == 1 and isinstance(s.body[0], ast.Assign) and len(s.body[0].targets) == 1 \
                         and ast.dump(s.body[0].targets[0]).replace('Store()', 'Load()') == ast.dump(tst.left).replace('Store()', 'Load()'):
                     subj = tst.left
-                    is_param = isinstance(subj, ast.Name) and subj.id in self.env0
+                    is_param = isinstance(subj, ast.Name) and subj.id in self.env0 and subj.id not in self.spec.frag_vars
                     is_read = self.path(subj, env) in self.spec.attrs
                     if is_param or is_read:
                         self.notes.append('defaulting `if %s is None: …` (line %d) not translated' % (self.src(subj), s.lineno))
                         continue
+                # warning only:  if …: warnings.warn(…)
+                if not s.orelse and s.body and all(isinstance(b, ast.Expr) and isinstance(b.value, ast.Call)
+                                                  and self.path(b.value.func, env) == 'warnings.warn' for b in s.body):
+                    self.notes.append('warning `if %s: warnings.warn(…)` (line %d) not translated' % (self.src(s.test), s.lineno))
+                    continue
                 c = self.expr(s.test, env)
                 if c.t != 'B':
                     raise Unsupported('`if %s:` (line %d): the condition is not a Boolean parameter / expression' % (self.src(s.test), s.lineno))
                 rest = stmts[k + 1:]
+                known = self.fold(c.e)
+                if known is not None:                           # condition on literals: only one branch exists
+                    return self.block((list(s.body) if known else list(s.orelse)) + rest, env, depth + 1)
                 r1 = self.block(list(s.body) + rest, env, depth + 1)
                 r2 = self.block(list(s.orelse) + rest, env, depth + 1)
                 return self.merge(c, r1, r2, s)
             raise Unsupported('statement `%s` (line %d)' % (self.src(s).split(':')[0], s.lineno))
         raise Unsupported('a path through the function does not end in `return <expression>`')
 
+    # results that may be exceptions: Val('EX', tree), tree = ('ok', Val) | ('err', class name) | ('ite', cond, tree, tree)
+    def ex_lift(self, v):
+        if v.t == 'ERR':
+            return Val('EX', ('err', v.e))
+        if v.t == 'EX':
+            return v
+        return Val('EX', ('ok', v))
+
+    def ex_types(self, tree):
+        if tree[0] == 'ok':
+            return set([tree[1].t])
+        if tree[0] == 'err':
+            return set()
+        return self.ex_types(tree[2]) | self.ex_types(tree[3])
+
+    def ex_map(self, tree, f):
+        if tree[0] == 'ok':
+            return ('ok', f(tree[1]))
+        if tree[0] == 'err':
+            return tree
+        return ('ite', tree[1], self.ex_map(tree[2], f), self.ex_map(tree[3], f))
+
+    def ex_dump(self, tree):
+        if tree[0] == 'ok':
+            return ('ok', self.dump(tree[1]))
+        if tree[0] == 'err':
+            return tree
+        return ('ite', tree[1], self.ex_dump(tree[2]), self.ex_dump(tree[3]))
+
     def merge(self, c, a, b, s):
         if a.t == 'R' and b.t == 'R':
             a, b = self.finish(a), self.finish(b)
+        if a.t in ('ERR', 'EX') or b.t in ('ERR', 'EX'):
+            a, b = self.ex_lift(self.finish(a)), self.ex_lift(self.finish(b))
+            ts = self.ex_types(a.e) | self.ex_types(b.e)
+            if ts == set(('Str', 'OS')):
+                up = lambda v: Val('OS', ('osome', v.e)) if v.t == 'Str' else v
+                a, b = Val('EX', self.ex_map(a.e, up)), Val('EX', self.ex_map(b.e, up))
+            elif len(ts) > 1:
+                raise Unsupported('`if` (line %d): branch results of different kinds (%s)' % (s.lineno, ', '.join(sorted(ts))))
+            if self.ex_dump(a.e) == self.ex_dump(b.e):
+                return a
+            return Val('EX', ('ite', c.e, a.e, b.e))
+        if set((a.t, b.t)) == set(('Str', 'OS')):
+            a = Val('OS', ('osome', a.e)) if a.t == 'Str' else a
+            b = Val('OS', ('osome', b.e)) if b.t == 'Str' else b
         if a.t == 'T' and b.t == 'T' and len(a.e) == len(b.e):
             # keep the tuple inside the branches (as the models do): if c then (a1, a2) else (b1, b2)
             ts = []
@@ -841,7 +1035,7 @@ class FormulaTranslator(object):
         if set((a.t, b.t)) == set(('S', 'O')):
             a = Val('O', ('some', a.e)) if a.t == 'S' else a
             b = Val('O', ('some', b.e)) if b.t == 'S' else b
-        if a.t != b.t or a.t not in ('S', 'V', 'O', 'B'):
+        if a.t != b.t or a.t not in ('S', 'V', 'O', 'B', 'Str', 'OS'):
             raise Unsupported('`if` (line %d): branch results of different kinds (%s, %s)' % (s.lineno, a.t, b.t))
         if a.e == b.e:
             return a
@@ -850,6 +1044,8 @@ class FormulaTranslator(object):
         return Val(a.t, ('ite', c.e, a.e, b.e))
 
     def dump(self, v):
+        if v.t == 'EX':
+            return ('EX', self.ex_dump(v.e))
         if v.t in ('T',):
             return ('T', [self.dump(x) for x in v.e])
         if v.t == 'TI':
@@ -875,6 +1071,14 @@ class FormulaTranslator(object):
             return e[1]
         if k == 'idx':
             return par('%s i' % e[1], 1023)
+        if k == 'strlit':
+            return lstr(e[1])
+        if k in ('svar', 'osvar'):
+            return e[1]
+        if k == 'osome':
+            return par('some ' + self.R(e[1], 1024), 1023)
+        if k == 'num' and self.spec.scalar == 'Nat':
+            return str(e[1])
         if k == 'num':
             n = e[1]
             if n == 0:
@@ -938,6 +1142,18 @@ class FormulaTranslator(object):
             return self.R(c[1], 51) + ' ≤ ' + self.R(c[2], 51)
         if c[0] == 'not':
             return '¬ (' + self.C(c[1]) + ')'
+        if c[0] == 'seq':
+            return self.R(c[1], 51) + ' = ' + self.R(c[2], 51)
+        if c[0] == 'smem':
+            return self.R(c[1], 51) + ' ∈ [' + ', '.join(lstr(x) for x in c[2]) + ']'
+        if c[0] == 'isnone':
+            return self.R(c[1], 51) + ' = none'
+        if c[0] in ('and', 'or'):
+            return '(' + self.C(c[1]) + (') ∧ (' if c[0] == 'and' else ') ∨ (') + self.C(c[2]) + ')'
+        if c[0] == 'ctrue':
+            return 'True'
+        if c[0] == 'cfalse':
+            return 'False'
         raise Unsupported('internal: cannot render condition %r' % (c[0],))
 
     def RV(self, v, ind='  '):
@@ -948,16 +1164,43 @@ class FormulaTranslator(object):
             return 'if ' + self.C(v.e[0]) + ' then\n' + ind + '  ' + self.RV(v.e[1], ind + '  ') + '\n' + ind + 'else\n' + ind + '  ' + self.RV(v.e[2], ind + '  ')
         if v.t == 'B':
             return self.Bterm(v.e)
+        if v.t == 'EX':
+            return self.RX(v.e, ind)
         if v.e[0] == 'ite':
             return 'if ' + self.C(v.e[1]) + ' then\n' + ind + '  ' + self.RV(Val(v.t, v.e[2]), ind + '  ') + '\n' + ind + 'else\n' + ind + '  ' \
                    + self.RV(Val(v.t, v.e[3]), ind + '  ')
         return self.R(v.e, 0)
 
+    def RX(self, tree, ind):
+        if tree[0] == 'ok':
+            v = tree[1]
+            if v.t in ('S', 'O', 'Str', 'OS'):
+                return '.ok ' + self.R(v.e, 1024)
+            x = self.RV(v, ind + '  ')
+            return '.ok ' + (x if re.match(r'^[A-Za-z0-9_"]+$', x) else '(' + x + ')')
+        if tree[0] == 'err':
+            return '.error ' + lstr(tree[1])
+        return 'if ' + self.C(tree[1]) + ' then\n' + ind + '  ' + self.RX(tree[2], ind + '  ') + '\n' + ind + 'else\n' + ind + '  ' \
+               + self.RX(tree[3], ind + '  ')
+
     def ltype(self, v):
         if v.t == 'S':
-            return 'α'
+            return self.spec.scalar
         if v.t == 'O':
-            return 'Option α'
+            return 'Option ' + self.spec.scalar
+        if v.t == 'Str':
+            return 'String'
+        if v.t == 'OS':
+            return 'Option String'
+        if v.t == 'EX':
+            ts = self.ex_types(v.e)
+            if len(ts) != 1:
+                raise Unsupported('every path raises' if not ts else 'results of different kinds')
+            t = list(ts)[0]
+            inner = self.ltype(Val(t, None)) if t in ('S', 'O', 'Str', 'OS', 'B') else None
+            if inner is None:
+                raise Unsupported('the result is a %s or an exception' % t)
+            return 'Except String ' + ('(' + inner + ')' if ' ' in inner else inner)
         if v.t == 'B':
             return 'Bool'
         if v.t == 'T':
@@ -970,7 +1213,15 @@ class FormulaTranslator(object):
 
     def translate(self):
         self.setup()
-        v = self.finish(self.block(self.fn.body, self.env0))
+        stmts = self.fn.body
+        if self.spec.fragment is not None:
+            stmts = self.spec.fragment(self.fn)
+        if self.spec.frag_return is not None:
+            ln = stmts[-1].end_lineno if stmts else self.fn.lineno
+            stmts = list(stmts) + [ast.Return(value=ast.Name(id=self.spec.frag_return, ctx=ast.Load(), lineno=ln, col_offset=0),
+                                              lineno=ln, col_offset=0)]
+        v = self.block(stmts, self.env0)
+        v = self.ex_lift(v) if v.t == 'ERR' else self.finish(v)
         if v.t == 'V':
             if self.has_vec:
                 raise Unsupported('the function returns a vector')
@@ -1020,6 +1271,12 @@ def locate_function(trees, loc):
             decos.append(ast.unparse(d))
         except Exception:
             decos.append('?')
+    if inner is not None and inner != 'inner':
+        # a nested helper function, by name
+        cands = [x for x in ast.walk(fn) if isinstance(x, ast.FunctionDef) and x is not fn and x.name == inner]
+        if len(cands) != 1:
+            return None, 'nested function %s not found in %s (pygam/%s)' % (inner, label, fname), decos
+        return cands[0], '%s.%s' % (label, inner), decos
     if inner is not None:
         # decorator: the nested function that the outer one returns
         ret = [s for s in fn.body if isinstance(s, ast.Return)]
@@ -1062,6 +1319,7 @@ FORMULA_VARIABLES = {
              '  [HasLogSqrt α]',
 }
 FORMULA_VARIABLES['gam'] = FORMULA_VARIABLES['dists']
+FORMULA_VARIABLES['nat'] = None       # natural-number functions: no type variable
 
 
 def formula_specs(trees):
@@ -1163,24 +1421,140 @@ def formulas_text(trees):
     L.append('in the type-mismatch error of the broken tie theorem) says why -/')
     L.append('structure Untranslatable (reason : String) : Type where')
     L.append('')
-    specs = formula_specs(trees)
-    decorators = []
+    problems, decorators = emit_definitions(L, formula_specs(trees), trees, 'Untranslatable')
+    L.append('/-- decorators of the `V` / `deviance` methods as written in the source (`multiply_weights`, `divide_weights` above) -/')
+    L.append('def methodDecorators : List (String × List String) :=')
+    L.append('  [' + ',\n   '.join('(%s, [%s])' % (lstr(nm), ', '.join(lstr(d) for d in ds)) for nm, ds in decorators) + ']')
+    L.append('')
+    L.append('end PyGam.Gen')
+    return '\n'.join(L) + '\n', problems
+
+
+
+# ---------------------------------------------------------------------------------------------------------
+# Decisions: translation of small decision functions into lean/PyGam/Gen/Decisions.lean
+# ---------------------------------------------------------------------------------------------------------
+# Same engine, with strings (`==`, `!=`, `in [...]`, `is None`), `and` / `or`, `raise X(…)` as a result
+# (`Except String _`, the string is the exception class), natural-number arithmetic (`n_coefs`), `np.abs`, `np.r_[a, b]` (a pair),
+# and FRAGMENTS: a run of `if` statements inside a larger function (the `'auto'` resolution in the loop of
+# `Term.build_penalties`, the objective checks of `GAM.gridsearch`), selected structurally and closed with
+# `return <the variable they decide>`.  Conditions on literals are decided at translation time (so the `None` test after
+# `penalty = 'l2'` disappears).
+
+def frag_auto_penalty(fn):
+    """`Term.build_penalties`: in the loop `for penalty, lam in …`, the leading `if` statements up to the registry lookup
+    `if penalty in PENALTIES`"""
+    loops = [s for s in fn.body if isinstance(s, ast.For) and any(isinstance(x, ast.Name) and x.id == 'penalty' for x in ast.walk(s.target))]
+    if len(loops) != 1:
+        raise Unsupported('expected exactly one loop `for penalty, … in …`')
+    out = []
+    for s in loops[0].body:
+        if not isinstance(s, ast.If):
+            break
+        t = s.test
+        if isinstance(t, ast.Compare) and len(t.ops) == 1 and isinstance(t.ops[0], ast.In) and isinstance(t.comparators[0], ast.Name):
+            break
+        out.append(s)
+    if not out:
+        raise Unsupported('the loop does not start with the resolution of the penalty name')
+    return out
+
+
+def frag_objective(fn):
+    """`GAM.gridsearch`: the first contiguous run of top-level `if` statements that mention `objective`"""
+    out = []
+    for s in fn.body:
+        m = isinstance(s, ast.If) and any(isinstance(x, ast.Name) and x.id == 'objective' for x in ast.walk(s))
+        if m:
+            out.append(s)
+        elif out:
+            break
+    if not out:
+        raise Unsupported('no `if` statement about `objective`')
+    return out
+
+
+MODEL_CLASSES = ['GAM', 'LinearGAM', 'LogisticGAM', 'PoissonGAM', 'GammaGAM', 'InvGaussGAM', 'ExpectileGAM']
+
+
+def decision_specs(trees):
+    specs = []
+    specs.append(FormulaSpec('resolve_penalty', 'dists', ('terms.py', 'Term', 'build_penalties', None),
+                             pre=[('dtype', 'String'), ('term_name', 'String'), ('basis', 'String')], params=['X'],
+                             attrs={'self.dtype': ('Str', 'dtype'), 'self._name': ('Str', 'term_name'), 'self.basis': ('Str', 'basis')},
+                             fragment=frag_auto_penalty, frag_vars={'penalty': ('OS', 'penalty')}, frag_return='penalty',
+                             what='the resolution of one penalty name in the loop (`\'auto\'`, `None`), before the lookup in `PENALTIES`'))
+    specs.append(FormulaSpec('gen_edge_knots', 'dists', ('utils.py', None, 'gen_edge_knots', None),
+                             pre=[('dmin', 'α'), ('dmax', 'α')], params=['X', 'Str', 'X'], self_param=False,
+                             callees={'np.min': dict(kind='value', t='S', lean='dmin', args_ignored_only=True),
+                                      'np.max': dict(kind='value', t='S', lean='dmax', args_ignored_only=True)},
+                             what='`np.min(data)` ↦ `dmin`, `np.max(data)` ↦ `dmax`; `np.r_[a, b]` ↦ `(a, b)`'))
+    nat = dict(scalar='Nat')
+    specs.append(FormulaSpec('n_coefs_intercept', 'nat', ('terms.py', 'Intercept', 'n_coefs', None), pre=[], params=[], **nat))
+    specs.append(FormulaSpec('n_coefs_linear', 'nat', ('terms.py', 'LinearTerm', 'n_coefs', None), pre=[], params=[], **nat))
+    specs.append(FormulaSpec('n_coefs_spline', 'nat', ('terms.py', 'SplineTerm', 'n_coefs', None), pre=[('n_splines', 'Nat')], params=[],
+                             attrs={'self.n_splines': ('S', 'n_splines')}, **nat))
+    specs.append(FormulaSpec('n_coefs_factor', 'nat', ('terms.py', 'FactorTerm', 'n_coefs', None),
+                             pre=[('n_splines', 'Nat'), ('coding', 'String')], params=[],
+                             attrs={'self.n_splines': ('S', 'n_splines'), 'self.coding': ('Str', 'coding')},
+                             what='natural-number subtraction (`n_splines ≥ 1`)', **nat))
+    specs.append(FormulaSpec('n_coefs_tensor', 'nat', ('terms.py', 'TensorTerm', 'n_coefs', None),
+                             pre=[('marginal_n_coefs', 'List Nat')], params=[],
+                             attrs={'self._terms[*].n_coefs': ('LS', 'marginal_n_coefs')},
+                             what='`[term.n_coefs for term in self._terms]` ↦ `marginal_n_coefs`, `np.prod` ↦ `prodList`', **nat))
+    specs.append(FormulaSpec('gridsearch_objective', 'dists', ('pygam.py', 'GAM', 'gridsearch', None),
+                             pre=[('known_scale', 'Bool')], params=['X', 'X', 'X', 'X', 'X', 'Str', 'X'],
+                             attrs={'self.distribution._known_scale': ('B', 'known_scale')},
+                             fragment=frag_objective, frag_return='objective', raises=True,
+                             what='the validation and resolution of `objective`; `.error` carries the exception class'))
+    specs.append(FormulaSpec('within_tol', 'dists', ('pygam.py', 'ExpectileGAM', 'fit_quantile', '_within_tol'),
+                             pre=[], params=['S', 'S', 'S'], self_param=False,
+                             what='`np.abs(x)` ↦ `if x < 0 then -x else x`'))
+    return specs
+
+
+def class_recreates_dist(tree, cls):
+    """does `<cls>._validate_params` (its own definition) contain the top-level statement
+    `self.distribution = <Class>(scale=self.scale)` ?  None when the class is missing"""
+    node = find_class(tree, cls) if tree is not None else None
+    if node is None:
+        return None
+    fn = find_func(node, '_validate_params')
+    if fn is None or not fn.args.args:
+        return False
+    me = fn.args.args[0].arg
+    for s in fn.body:
+        if isinstance(s, ast.Assign) and len(s.targets) == 1:
+            t, v = s.targets[0], s.value
+            if isinstance(t, ast.Attribute) and isinstance(t.value, ast.Name) and t.value.id == me and t.attr == 'distribution' \
+                    and isinstance(v, ast.Call) and isinstance(v.func, ast.Name) and not v.args and len(v.keywords) == 1 \
+                    and v.keywords[0].arg == 'scale' and isinstance(v.keywords[0].value, ast.Attribute) \
+                    and isinstance(v.keywords[0].value.value, ast.Name) and v.keywords[0].value.value.id == me \
+                    and v.keywords[0].value.attr == 'scale':
+                return True
+    return False
+
+
+def emit_definitions(L, specs, trees, placeholder):
+    """append the translated definitions of `specs` to the line list L; returns (problems, [(name, decorators)])"""
+    problems, decorators = [], []
     cur = None
-    problems = []
     for spec in specs:
-        if spec.ctx != cur and FORMULA_VARIABLES[spec.ctx] != FORMULA_VARIABLES.get(cur):
+        var = FORMULA_VARIABLES.get(spec.ctx)
+        if var != cur:
             if cur is not None:
                 L.append('end')
                 L.append('')
-            L.append('section')
-            L.append(FORMULA_VARIABLES[spec.ctx])
-            L.append('')
-        cur = spec.ctx
+            if var is not None:
+                L.append('section')
+                L.append(var)
+                L.append('')
+        cur = var
         fn, label, decos = locate_function(trees, spec.locate)
         fname = spec.locate[0]
         if fn is None:
             L.append('/-- NOT TRANSLATED: %s -/' % _doc(label))
-            L.append('def %s : Untranslatable %s := {}' % (spec.name, lstr(label)))
+            L.append('def %s : %s %s := {}' % (spec.name, placeholder, lstr(label)))
             L.append('')
             problems.append('%s: %s' % (spec.name, label))
             continue
@@ -1188,7 +1562,7 @@ def formulas_text(trees):
         if spec.locate[3] is None and spec.locate[1] is not None and spec.ctx == 'dists' and spec.locate[2] in ('V', 'deviance'):
             decorators.append((spec.name, decos))
         tr = FormulaTranslator(spec, fn)
-        if spec.locate[3] is not None:
+        if spec.locate[3] == 'inner':
             # the wrapped function (the decorator's parameter) is called as  wrapped(self, …, **kwargs)
             wrapped = getattr(fn, '_wrapped_name', None)
             spec.callees = {wrapped: spec.callees['@wrapped']}
@@ -1197,14 +1571,14 @@ def formulas_text(trees):
         except Unsupported as e:
             reason = '%s (%s): %s' % (label, where, e)
             L.append('/-- NOT TRANSLATED: %s -/' % _doc(reason))
-            L.append('def %s : Untranslatable %s := {}' % (spec.name, lstr(reason)))
+            L.append('def %s : %s %s := {}' % (spec.name, placeholder, lstr(reason)))
             L.append('')
             problems.append('%s: %s' % (spec.name, reason))
             continue
         except Exception as e:      # never let a source the translator does not understand stop the run
             reason = '%s (%s): translator error %s: %s' % (label, where, type(e).__name__, e)
             L.append('/-- NOT TRANSLATED: %s -/' % _doc(reason))
-            L.append('def %s : Untranslatable %s := {}' % (spec.name, lstr(reason)))
+            L.append('def %s : %s %s := {}' % (spec.name, placeholder, lstr(reason)))
             L.append('')
             problems.append('%s: %s' % (spec.name, reason))
             continue
@@ -1215,46 +1589,91 @@ def formulas_text(trees):
         if keys:
             doc += '.  Record keys in order: ' + ', '.join(keys)
         if tr.notes:
-            doc += '.  ' + '; '.join(tr.notes)
+            doc += '.  ' + '; '.join(sorted(set(tr.notes), key=tr.notes.index))
         L.append('/-- %s -/' % _doc(doc))
-        L.append('def %s %s : %s :=' % (spec.name, _group_binders(binders), ty))
+        bs = _group_binders(binders)
+        L.append('def %s%s : %s :=' % (spec.name, (' ' + bs) if bs else '', ty))
         L.append('  ' + body)
         L.append('')
     if cur is not None:
         L.append('end')
         L.append('')
-    L.append('/-- decorators of the `V` / `deviance` methods as written in the source (`multiply_weights`, `divide_weights` above) -/')
-    L.append('def methodDecorators : List (String × List String) :=')
-    L.append('  [' + ',\n   '.join('(%s, [%s])' % (lstr(nm), ', '.join(lstr(d) for d in ds)) for nm, ds in decorators) + ']')
+    return problems, decorators
+
+
+def decisions_text(trees):
+    L = []
+    L.append('import PyGam.Model.Vec')
+    L.append('import PyGam.Model.Dists')
+    L.append('/-! GENERATED by tools/translate.py from %s — do not edit.  Regenerated on every check run.' % os.path.join(REPO, 'pygam'))
+    L.append('')
+    L.append('Small DECISION functions of pyGAM, translated from the abstract syntax tree of the current source (nothing is imported or')
+    L.append('executed): names are `String`s, `None`-able names `Option String`, `raise X(…)` is `.error "X"` of an `Except String _`,')
+    L.append('counts are `Nat`.  `Props/C03, C04, C10, C15, C16, C18` prove (`gen_decision_*`) that each of them IS the decision the')
+    L.append('hand-written model takes.  Two of them are fragments of larger functions (selected structurally, see tools/translate.py).')
+    L.append('A function outside the supported subset becomes a `Gen.UndecidedSource` (with the reason): its tie theorem then fails to build. -/')
+    L.append('set_option linter.unusedVariables false')
+    L.append('namespace PyGam.Gen')
+    L.append('')
+    L.append('/-- placeholder for a source function the translator could not translate; `reason` (part of the type, so that it shows')
+    L.append('in the type-mismatch error of the broken tie theorem) says why -/')
+    L.append('structure UndecidedSource (reason : String) : Type where')
+    L.append('')
+    problems, _ = emit_definitions(L, decision_specs(trees), trees, 'UndecidedSource')
+    L.append('/-- for every model class: does its own `_validate_params` execute `self.distribution = <Dist>(scale=self.scale)`')
+    L.append('(a fresh distribution object on every fit)?  `none`: the class is not in pygam/pygam.py -/')
+    L.append('def classRecreatesDist : List (String × Option Bool) :=')
+    rows = []
+    for c in MODEL_CLASSES:
+        r = class_recreates_dist(trees.get('pygam.py'), c)
+        rows.append('(%s, %s)' % (lstr(c), 'none' if r is None else ('some true' if r else 'some false')))
+    L.append('  [' + ',\n   '.join(rows) + ']')
     L.append('')
     L.append('end PyGam.Gen')
     return '\n'.join(L) + '\n', problems
 
 
-def formulas_main():
+def write_if_changed(path, text):
+    os.makedirs(os.path.dirname(path), exist_ok=True)
+    old = open(path).read() if os.path.exists(path) else None
+    if old != text:
+        with open(path, 'w') as fh:
+            fh.write(text)
+        print('translate: wrote', os.path.relpath(path, HERE))
+
+
+def decisions_main(trees):
+    text, problems = decisions_text(trees)
+    for p in problems:
+        print('translate: NOT TRANSLATED', p)
+    write_if_changed(OUT_DECISIONS, text)
+    return 0
+
+
+def parse_all(names):
     trees = {}
-    for name in ('links.py', 'distributions.py', 'pygam.py'):
+    for name in names:
         try:
             trees[name] = parse(name)
         except Exception as e:      # unreadable / syntactically broken source: every definition becomes a placeholder
             trees[name] = None
             print('translate: cannot parse pygam/%s: %s' % (name, e))
-    text, problems = formulas_text(trees)
+    return trees
+
+
+def formulas_main():
+    text, problems = formulas_text(parse_all(('links.py', 'distributions.py', 'pygam.py')))
     for p in problems:
         print('translate: NOT TRANSLATED', p)
-    os.makedirs(os.path.dirname(OUT_FORMULAS), exist_ok=True)
-    old = open(OUT_FORMULAS).read() if os.path.exists(OUT_FORMULAS) else None
-    if old != text:
-        with open(OUT_FORMULAS, 'w') as fh:
-            fh.write(text)
-        print('translate: wrote', os.path.relpath(OUT_FORMULAS, HERE))
+    write_if_changed(OUT_FORMULAS, text)
     return 0
 
 
 def main():
     rc = tables_main()
     rc2 = formulas_main()
-    return rc or rc2
+    rc3 = decisions_main(parse_all(('terms.py', 'utils.py', 'pygam.py')))
+    return rc or rc2 or rc3
 
 
 if __name__ == '__main__':
